@@ -237,3 +237,129 @@ pub fn get_fri_instance<F: RichField + Extendable<D>, const D: usize>(
 ) -> crate::fri::structure::FriInstanceInfo<F, D> {
     common_data.get_fri_instance(zeta)
 }
+
+// ---- C12 / C16 (engine S family `merkle`): crate-private Merkle path compression, FRI proof
+// decompression, inferred FRI elements and the verifier's two evaluation helpers ----
+
+pub fn compress_merkle_proofs<F: RichField, H: crate::plonk::config::Hasher<F>>(
+    cap_height: usize,
+    indices: &[usize],
+    proofs: &[crate::hash::merkle_proofs::MerkleProof<F, H>],
+) -> alloc_vec::Vec<crate::hash::merkle_proofs::MerkleProof<F, H>> {
+    crate::hash::path_compression::compress_merkle_proofs::<F, H>(cap_height, indices, proofs)
+}
+
+pub fn decompress_merkle_proofs<F: RichField, H: crate::plonk::config::Hasher<F>>(
+    leaves_data: &[alloc_vec::Vec<F>],
+    leaves_indices: &[usize],
+    compressed_proofs: &[crate::hash::merkle_proofs::MerkleProof<F, H>],
+    height: usize,
+    cap_height: usize,
+) -> alloc_vec::Vec<crate::hash::merkle_proofs::MerkleProof<F, H>> {
+    crate::hash::path_compression::decompress_merkle_proofs::<F, H>(
+        leaves_data,
+        leaves_indices,
+        compressed_proofs,
+        height,
+        cap_height,
+    )
+}
+
+pub fn compressed_fri_proof_decompress<
+    F: RichField + Extendable<D>,
+    H: crate::plonk::config::Hasher<F>,
+    const D: usize,
+>(
+    proof: crate::fri::proof::CompressedFriProof<F, H, D>,
+    challenges: &crate::plonk::proof::ProofChallenges<F, D>,
+    inferred: alloc_vec::Vec<F::Extension>,
+    params: &crate::fri::FriParams,
+) -> crate::fri::proof::FriProof<F, H, D> {
+    proof.decompress(
+        challenges,
+        crate::plonk::proof::FriInferredElements(inferred),
+        params,
+    )
+}
+
+pub fn compressed_proof_decompress<
+    F: RichField + Extendable<D>,
+    C: crate::plonk::config::GenericConfig<D, F = F>,
+    const D: usize,
+>(
+    proof: crate::plonk::proof::CompressedProof<F, C, D>,
+    challenges: &crate::plonk::proof::ProofChallenges<F, D>,
+    inferred: alloc_vec::Vec<F::Extension>,
+    params: &crate::fri::FriParams,
+) -> crate::plonk::proof::Proof<F, C, D> {
+    proof.decompress(
+        challenges,
+        crate::plonk::proof::FriInferredElements(inferred),
+        params,
+    )
+}
+
+pub fn get_inferred_elements<
+    F: RichField + Extendable<D>,
+    C: crate::plonk::config::GenericConfig<D, F = F>,
+    const D: usize,
+>(
+    proof: &crate::plonk::proof::CompressedProofWithPublicInputs<F, C, D>,
+    challenges: &crate::plonk::proof::ProofChallenges<F, D>,
+    common_data: &crate::plonk::circuit_data::CommonCircuitData<F, D>,
+) -> alloc_vec::Vec<F::Extension> {
+    proof.get_inferred_elements(challenges, common_data).0
+}
+
+pub fn fri_combine_initial<
+    F: RichField + Extendable<D>,
+    C: crate::plonk::config::GenericConfig<D, F = F>,
+    const D: usize,
+>(
+    instance: &crate::fri::structure::FriInstanceInfo<F, D>,
+    proof: &crate::fri::proof::FriInitialTreeProof<F, C::Hasher>,
+    alpha: F::Extension,
+    subgroup_x: F,
+    openings: &crate::fri::structure::FriOpenings<F, D>,
+    params: &crate::fri::FriParams,
+) -> F::Extension {
+    let pre = crate::fri::verifier::PrecomputedReducedOpenings::from_os_and_alpha(openings, alpha);
+    crate::fri::verifier::fri_combine_initial::<F, C, D>(instance, proof, alpha, subgroup_x, &pre, params)
+}
+
+pub fn compute_evaluation<F: RichField + Extendable<D>, const D: usize>(
+    x: F,
+    x_index_within_coset: usize,
+    arity_bits: usize,
+    evals: &[F::Extension],
+    beta: F::Extension,
+) -> F::Extension {
+    crate::fri::verifier::compute_evaluation::<F, D>(x, x_index_within_coset, arity_bits, evals, beta)
+}
+
+pub fn empty_selectors_info() -> crate::gates::selectors::SelectorsInfo {
+    crate::gates::selectors::SelectorsInfo {
+        selector_indices: alloc_vec::Vec::new(),
+        groups: alloc_vec::Vec::new(),
+    }
+}
+
+pub fn common_fri_instance<F: RichField + Extendable<D>, const D: usize>(
+    common_data: &crate::plonk::circuit_data::CommonCircuitData<F, D>,
+    zeta: F::Extension,
+) -> crate::fri::structure::FriInstanceInfo<F, D> {
+    common_data.get_fri_instance(zeta)
+}
+
+pub fn opening_set_to_fri_openings<F: RichField + Extendable<D>, const D: usize>(
+    openings: &crate::plonk::proof::OpeningSet<F, D>,
+) -> crate::fri::structure::FriOpenings<F, D> {
+    openings.to_fri_openings()
+}
+
+mod alloc_vec {
+    #[cfg(not(feature = "std"))]
+    pub use alloc::vec::Vec;
+    #[cfg(feature = "std")]
+    pub use std::vec::Vec;
+}
